@@ -33,7 +33,11 @@ TMP_SCALARS = ["s", "t", "u", "last"]
 ARR1 = ["a", "b", "c"]
 ARR2 = ["d", "e"]
 LB, UB = -6, 16
-DECLS = ([(v, "integer", []) for v in [LOOPVAR] + INNER + RO_SCALARS + TMP_SCALARS] +
+# read-only scalars whose names collide with names the dependence analysis / transformations invent:
+# the distance symbol d_<loopvar>, d<k>_<loopvar> of _get_dependency_distance, and names PSyclone creates
+COLLIDE = ["d_i", "d1_i", "d_j", "d_ji", "d1_ji", "idx", "loop_start", "tmp", "th_idx", "nthreads"]
+ALT_LOOPVARS = ["ji", "jj"]            # NEMO-style loop variables (so that d_ji is the distance symbol)
+DECLS = ([(v, "integer", []) for v in [LOOPVAR] + INNER + ALT_LOOPVARS + RO_SCALARS + TMP_SCALARS + COLLIDE] +
          [(a, "integer", [(LB, UB)]) for a in ARR1] + [(a, "integer", [(LB, UB), (LB, UB)]) for a in ARR2])
 BNDS = {a: [(LB, UB)] for a in ARR1}
 BNDS.update({a: [(LB, UB), (LB, UB)] for a in ARR2})
@@ -156,28 +160,33 @@ class LoopGen:
     def __init__(self, rng):
         self.r = rng
         self.sections = True
+        self.lv = LOOPVAR
 
     def sub1(self, env, role):
         """one subscript; role 'w' (written array) prefers i-based subscripts"""
         r = self.r
         c = r.random()
         if c < (0.72 if role == "w" else 0.5):
-            return off(LOOPVAR, r.choice([0, 0, 0, 0, 1, -1, 2]))
+            return off(self.lv, r.choice([0, 0, 0, 0, 1, -1, 2]))
         if c < 0.82 and env["inner"]:
             return off(r.choice(env["inner"]), r.choice([0, 0, 1]))
         if c < 0.88:
             return lit(r.randint(1, 4))
-        if c < 0.93:
+        if c < 0.91:
             return off(r.choice(RO_SCALARS), r.choice([0, 1]))
+        if c < 0.95:
+            # loopvar +- a run-time offset whose name collides with an invented name (d_i, d1_i, idx, ...)
+            nmz = r.choice(["d_" + self.lv, "d_" + self.lv, "d1_" + self.lv] + COLLIDE)
+            return ("bin", r.choice(["Add", "Add", "Sub"]), var(self.lv), var(nmz))
         if c < 0.97 and env["tmps"]:
             return var(r.choice(env["tmps"]))        # index scalar (values kept small by the stores)
         c2 = r.random()
         if c2 < 0.25 and env["tmps"]:
-            return ("bin", "Add", var(LOOPVAR), var(r.choice(env["tmps"])))      # i + (loop-variant scalar)
+            return ("bin", "Add", var(self.lv), var(r.choice(env["tmps"])))      # i + (loop-variant scalar)
         if c2 < 0.4:
-            return ("bin", "Div", var(LOOPVAR), lit(2))                           # i / 2
-        return ("bin", "Mul", lit(2), var(LOOPVAR)) if c2 < 0.7 else \
-            ("bin", "Add", var(LOOPVAR), var(r.choice(RO_SCALARS)))
+            return ("bin", "Div", var(self.lv), lit(2))                           # i / 2
+        return ("bin", "Mul", lit(2), var(self.lv)) if c2 < 0.7 else \
+            ("bin", "Add", var(self.lv), var(r.choice(RO_SCALARS)))
 
     def ref(self, env, role, arrays=None):
         r = self.r
@@ -196,7 +205,7 @@ class LoopGen:
             if c2 < 0.2:
                 return lit(r.randint(-2, 4))
             if c2 < 0.55:
-                pool = TMP_SCALARS[:3] + RO_SCALARS + [LOOPVAR] + env["inner"]
+                pool = TMP_SCALARS[:3] + RO_SCALARS + [self.lv] + env["inner"] + [r.choice(COLLIDE)]
                 if env["tmps"] and r.random() < 0.6:
                     pool = env["tmps"]    # a temporary written earlier in the body
                 elif r.random() < 0.04:
@@ -226,7 +235,7 @@ class LoopGen:
         r = self.r
         n = r.choice([2, 3, 3])
         in_loop_dim = r.random() < 0.15
-        lo = off(LOOPVAR, r.choice([0, 1, -1])) if in_loop_dim else lit(r.randint(1, 4))
+        lo = off(self.lv, r.choice([0, 1, -1])) if in_loop_dim else lit(r.randint(1, 4))
         tgt = r.choice(["d", "d", "d", "e", "b", "c"])
         other = self.sub1(env, "w")
         lhs = self.section_ref(env, tgt, lo, n, other)
@@ -239,10 +248,10 @@ class LoopGen:
                 return var(r.choice(env["tmps"] or RO_SCALARS))
             a = tgt if r.random() < 0.55 else r.choice(["a", "e", "d", "e"])
             if in_loop_dim:
-                lo2 = off(LOOPVAR, r.choice([0, 0, 1, -1]))
+                lo2 = off(self.lv, r.choice([0, 0, 1, -1]))
             else:
                 lo2 = lit(max(1, lo[1] + r.choice([0, 0, 1, -1, n, -n, 2])))
-            oth2 = other if r.random() < 0.4 else off(LOOPVAR, r.choice([0, 0, -1, 1]))
+            oth2 = other if r.random() < 0.4 else off(self.lv, r.choice([0, 0, -1, 1]))
             if a in ARR2 and tgt in ARR2 and r.random() < 0.8:      # same layout as the target
                 pos = [q[0] == "rng" for q in lhs[2]].index(True)
                 return ("idx", a, [rng(lo2, n), oth2] if pos == 0 else [oth2, rng(lo2, n)])
@@ -290,9 +299,13 @@ class LoopGen:
         lo, hi, st = r.choice([(lit(1), lit(4), lit(1)), (lit(1), lit(3), lit(1)), (lit(1), var("n"), lit(1)),
                                (lit(2), lit(5), lit(1)), (lit(1), lit(5), lit(2)), (lit(4), lit(1), lit(-1)),
                                (lit(1), lit(5), lit(1)), (lit(1), var("n"), lit(1)), (lit(1), lit(6), lit(1))])
+        if r.random() < 0.08:
+            hi = var(r.choice(["nthreads", "idx", "loop_start"]))       # colliding name as a loop bound
+            lo, st = lit(1), lit(1)
+        self.lv = LOOPVAR if r.random() < 0.85 else r.choice(ALT_LOOPVARS)
         env = {"inner": [], "tmps": []}
         body = self.block(env, 0, r.choice([1, 2, 2, 3, 3, 4]))
-        return ("do", LOOPVAR, lo, hi, st, body)
+        return ("do", self.lv, lo, hi, st, body)
 
     def pre(self):
         """statements in front of the loop inside a parallel region (region form, infer only)"""
@@ -339,6 +352,13 @@ SHAPES = [
     ("const-subscript-write", _do([("assign", "b", [lit(3)], A_I)])),
     ("index-scalar", _do([("assign", "t", [], A_I), ("assign", "b", [("bin", "Add", var("i"), var("t"))], var("i"))])),
     ("div-subscript", _do([("assign", "b", [("bin", "Div", var("i"), lit(2))], var("i"))])),
+    # run-time offsets named like the analysis' fresh distance symbol d_<loopvar> / d<k>_<loopvar>
+    ("distance-symbol-alias", _do([("assign", "a", [var("i")], ("idx", "a", [("bin", "Add", var("i"), var("d_i"))]))], lo=2, hi=5)),
+    ("distance-symbol-alias-d1", _do([("assign", "a", [var("i")], ("bin", "Add", ("idx", "a", [("bin", "Add", var("i"), var("d1_i"))]), var("d_i")))], lo=2, hi=5)),
+    ("distance-symbol-alias-minus", _do([("assign", "a", [var("i")], ("idx", "a", [("bin", "Sub", var("i"), var("d_i"))]))], lo=2, hi=5)),
+    ("distance-symbol-alias-ji", ("do", "ji", lit(2), lit(5), lit(1),
+                                  [("assign", "b", [var("ji")], ("bin", "Add", ("idx", "b", [("bin", "Add", var("ji"), var("d_ji"))]), lit(1)))])),
+    ("distance-symbol-write-side", _do([("assign", "b", [("bin", "Add", var("i"), var("d_i"))], ("idx", "a", [var("i")]))])),
     # array sections (harness-only): carried through overlapping / identical / disjoint sections, same column,
     # backward overlap inside one iteration (needs evaluate-all-then-store), section in the loop dimension
     ("section-overlap-carried", _do([("assign", "d", [rng(lit(2), 3), var("i")],
@@ -578,6 +598,13 @@ def make_stores(rng, count):
         mode = idx % 4
         for v in [LOOPVAR] + INNER + TMP_SCALARS:
             vals[(v, ())] = rng.randint(-2, 3) if mode else 0
+        for v in ALT_LOOPVARS:
+            vals[(v, ())] = 0
+        for v in COLLIDE:
+            vals[(v, ())] = rng.choice([1, -1, 2, 1, -2, 0])
+        vals[("nthreads", ())] = [4, 3, 5, 2][idx % 4]
+        vals[("idx", ())] = [2, 4, 1, 3][idx % 4]
+        vals[("loop_start", ())] = [3, 1, 4, 2][idx % 4]
         vals[("n", ())] = [3, 4, 0, 5, 1, 2][idx % 6]
         vals[("m", ())] = [2, 0, 3, 1][idx % 4]
         for a in ARR1:
@@ -817,9 +844,10 @@ Definition run_job (j : job) : bool :=
 def run(ctx):
     ctx.cov["rule"] = (
         "loops `do i` over integer scalars/arrays: body of 1-4 statements from {array assignment (subscripts i, i+-c, "
-        "const, n, inner var, index scalar, 2*i, i+n, i+tmp, i/2; 1-D and 2-D; array-section assignments lo:hi with "
+        "const, n, inner var, index scalar, 2*i, i+n, i+tmp, i/2, i+-<name colliding with an invented name: d_i d1_i d_ji idx "
+        "loop_start tmp th_idx nthreads>; loops over i / ji / jj; 1-D and 2-D; array-section assignments lo:hi with "
         "identical / overlapping / disjoint literal sections or sections in the loop dimension, harness-only), scalar assignment, IF/ELSE, inner DO (literal or "
-        "variable trip count)}; bounds literal / n, steps 1, 2, -1; 24 targeted shapes first; each loop goes through "
+        "variable trip count)}; bounds literal / n, steps 1, 2, -1; 29 targeted shapes first; each loop goes through "
         "OMPParallelLoopTrans or OMPLoopTrans(paralleldo) without force. non-trivial = accepted and code generated; "
         "distinct = canonical loop text.  Search: stores x realisable schedules (all interleavings for <=5 iterations).")
     ctx.cov["trusted_base"] = core.BASE_TRUST + [
